@@ -191,7 +191,7 @@ class ToStringBody(Contract):
                    "c < 0; names are identifiers; A1 (real coefficients: complex and NaN coefficients are bounded only)",
                    "token-level reading: the option strings display_multiply / display_exponent are taken as separators that do not "
                    "occur inside numbers and names (the bounded check reads the real characters back)",
-                   "coefficients of a 0-d polynomial behave as numbers (0-d arrays); number of indeterminates enumerated: 1, 2 (the loop over the indeterminates is unrolled; "
+                   "coefficients of a 0-d polynomial behave as numbers (0-d arrays); number of indeterminates enumerated: 1, 2 (thorough tier: also 3; the loop over the indeterminates is unrolled; "
                    "more indeterminates repeat the body of the second: bounded check)")
 
     def _loops(self):
@@ -232,7 +232,8 @@ class ToStringBody(Contract):
         return {1: LoopSpec(inv, havoc, modifies=("idx", "out", "exps_and_names", "exponent", "indeterminant"), enter=enter)}
 
     def cases(self):
-        for D in (1, 2):
+        from engine.contract import deep
+        for D in ((1, 2, 3) if deep() else (1, 2)):
             for ss in ("off", "symbolic"):
                 def make_env(ex, D=D, ss=ss):
                     ctx = ex.ctx
@@ -301,4 +302,115 @@ class ToStringBody(Contract):
         ex.oblige("chunk.separator.plus_only_before_a_non_negative_term", z3.Implies(z3.BoolVal(rd["plus"]), z3.Not(neg)), "post", node)
 
 
-CONTRACTS = [ToStringBody()]
+class ChunkResult:
+    """what _to_string(poly, precision, suppress_small) returns at a call site (its contract above): the list of chunks"""
+
+    def __init__(self, ex, P, precision, suppress):
+        self.P, self.precision, self.suppress = P, precision, suppress
+        self.nonempty = ex.ctx.bool("some_chunk")
+
+    def sx_truth(self, ex):
+        return self.nonempty
+
+    def sx_joined(self, ex, sep, node):
+        return JoinedChunks(sep, self)
+
+
+class JoinedChunks:
+    def __init__(self, sep, chunks):
+        self.sep, self.chunks = sep, chunks
+
+
+class PrintOptions:
+    """numpy.get_printoptions(): the current print settings (opaque values)"""
+
+    def __init__(self):
+        from contracts.shapefn import Tok
+        self.vals = {"precision": Tok("printoptions.precision"), "suppress": Tok("printoptions.suppress")}
+
+    def sx_getitem(self, ex, idx, node):
+        if idx in self.vals:
+            return self.vals[idx]
+        raise U(f"print option {idx!r}", node)
+
+
+def install_axioms(reg):
+    @reg.axiom("numpy.get_printoptions")
+    def _gp(ex, args, kw, node):
+        if args or kw:
+            raise U("numpy.get_printoptions with arguments", node)
+        po = getattr(ex, "printoptions", None)
+        if po is None:
+            po = ex.printoptions = PrintOptions()
+        return po
+
+
+def _to_string_apply(ex, args, kw, node):
+    b = dict(zip(ToStringBody.positional, args))
+    b.update(kw)
+    P = b.get("poly")
+    if not isinstance(P, Poly) or set(b) != set(ToStringBody.positional):
+        raise U("_to_string at a call site in this form", node)
+    from engine.logic import ndim
+    ex.oblige(f"pre({ex.site('_to_string')}).one_polynomial", ndim(P.shape) == 0, "precondition", node,
+              note="_to_string formats ONE polynomial (0-d)")
+    return ChunkResult(ex, P, b["precision"], b["suppress_small"])
+
+
+ToStringBody.apply = lambda self, ex, args, kw, node: _to_string_apply(ex, args, kw, node)
+
+
+class ToString(Contract):
+    """to_string(poly, precision, suppress_small) for ONE polynomial (0-d): missing precision / suppress_small are taken from
+    numpy's current print options; the text is the chunks of _to_string(poly, <those>) joined without separator, or - when no
+    chunk is emitted - str() of the zero of the coefficient dtype; the polynomial is only read (C17: frame obligations).
+    (n-d arrays recurse element by element through iteration: bounded check.)"""
+    name = "numpoly.array_repr.to_string"
+    relpath = "numpoly/array_function/array_repr.py"
+    func = "to_string"
+    properties = ("C16", "C17")
+    positional = ("poly", "precision", "suppress_small")
+    assumptions = ("0-d operand (arrays: element-wise recursion, bounded); contract of _to_string (proved above); numpy.get_printoptions "
+                   "returns the current settings (opaque)",)
+
+    def cases(self):
+        from contracts.shapefn import Tok
+        for label, given in (("defaults", False), ("given", True)):
+            def make_env(ex, given=given):
+                from contracts.baseclass import own_poly
+                P = own_poly(ex, "poly", allocation=False)
+                ex.ctx.assume(P.shape == shp0)
+                ex.P = P
+                ex.toks = (Tok("precision"), Tok("suppress_small")) if given else (None, None)
+                return {"poly": P, "precision": ex.toks[0], "suppress_small": ex.toks[1]}
+
+            def check(out, given=given):
+                ex = out.ex
+                P = ex.P
+                ex.oblige(f"raises.nothing[{out.exc}]" if out.kind == "raise" else "raises.nothing", z3.BoolVal(out.kind == "return"), "post")
+                if out.kind != "return":
+                    return
+                r = out.value
+                if isinstance(r, JoinedChunks):
+                    c = r.chunks
+                    ex.oblige("post.chunks_joined_without_separator", z3.BoolVal(r.sep == ""), "post")
+                    ex.oblige("post.chunks_of_this_polynomial", z3.BoolVal(c.P is P), "post")
+                    if given:
+                        okp = c.precision is ex.toks[0] and c.suppress is ex.toks[1]
+                    else:
+                        po = getattr(ex, "printoptions", None)
+                        okp = po is not None and c.precision is po.vals["precision"] and c.suppress is po.vals["suppress"]
+                    ex.oblige("post.precision_and_suppression_" + ("forwarded" if given else "from_the_print_options"), z3.BoolVal(bool(okp)), "post")
+                    ex.oblige("post.joined_only_if_some_chunk", c.nonempty, "post")
+                    return
+                ok = isinstance(r, Text) and len(r.toks) == 1 and r.toks[0][0] == "num"
+                ex.oblige("post.zero_text_when_no_chunk", z3.BoolVal(ok), "post")
+                if ok:
+                    ex.oblige("post.zero_text_is_the_number_zero", r.toks[0][1] == 0, "post")
+            yield Case(label, make_env, check)
+
+    def apply(self, ex, args, kw, node):
+        raise U("to_string as a callee", node)
+
+
+CONTRACTS = [ToStringBody(), ToString()]
